@@ -92,7 +92,6 @@ def checkFrom (st : St) : List (Op × Obs) → Option String
     else some "reopen-failed:"
   | (.compactCrash .., o) :: tr =>
     if o = .ok then checkFrom { st with prev := none, win := closeWin st.win } tr
-    else if o = .badGroup then checkFrom { st with prev := none } tr
     else some "reopen-failed:"
   | (.deleteCrash ss lo hi, o) :: tr =>
     -- the delete never returned: with and without it
